@@ -115,11 +115,100 @@ def finish(prop, tier, stages, t0, assumptions, level="model_checking", extra_co
 
 
 def replay_file(prop, path, replayer="replay_parser"):
+    if path.endswith(".ndjson"):
+        odir = os.path.join(OUT, prop, "replay"); os.makedirs(odir, exist_ok=True)
+        mod = {"replay_parser": "TraceParser", "replay_writer": "TraceWriter", "replay_tostring": "TraceToString"}.get(replayer, "TraceParser")
+        viol, summ, tl = validate_trace(prop, mod + ".tla", mod + ".cfg", os.path.abspath(path), odir)
+        for p, line, what in viol:
+            print("VIOLATION property=%s replay=%s" % (p, path)); print("  detail: trace %s: %s" % (line, what))
+        return 1 if viol else 0
     bdir = vlib.build("asan", [replayer])
     odir = os.path.join(OUT, prop, "replay"); os.makedirs(odir, exist_ok=True)
     r = subprocess.run("%s/%s --prop %s --memprop %s --outdir %s --replay %s" % (bdir, replayer, prop, MEMPROP.get(replayer, "C01"), odir, path),
                        shell=True, env=_env())
     return 1 if r.returncode == 1 else (0 if r.returncode == 0 else 2)
+
+
+def validate_trace(prop, module, cfg, trace, odir, timeout=1500):
+    """TLC validates an ndjson trace recorded from the real library (code -> spec)."""
+    meta = tempfile.mkdtemp(prefix="tlc-", dir=odir)
+    e = dict(os.environ); e["TRACE"] = trace
+    cmd = "cd %s && timeout %d %s" % (SPEC, timeout, vlib.tlc_cmd(module, cfg, workers=1, metadir=meta, heap="12g"))
+    r = subprocess.run(cmd, shell=True, capture_output=True, text=True, env=e)
+    shutil.rmtree(meta, ignore_errors=True)
+    open(os.path.join(odir, "tlc-trace.log"), "w").write(r.stdout[-200000:])
+    viol = re.findall(r'"TRACE-VIOLATION (C\d+|[A-Z]+): (line \d+): ([^"]*)"', r.stdout)
+    m = re.search(r'<<"TRACE-SUMMARY", (\d+), (\d+), (\d+)>>', r.stdout)
+    tl = vlib.parse_tlc_log(r.stdout)
+    accepted = tl["ok"] and "Postcondition" not in r.stdout
+    if not viol and not accepted:
+        raise Infra("trace validation did not complete (%s): %s" % (module, (tl["error"] or r.stdout[-600:])))
+    return viol, (tuple(int(x) for x in m.groups()) if m else (0, 0, 0)), tl
+
+
+def trace_stage(prop, name, recorder, rec_args, module, cfg, memprop="C01"):
+    t0 = time.time()
+    bdir = vlib.build("asan", [recorder])
+    odir = os.path.join(OUT, prop, name); shutil.rmtree(odir, ignore_errors=True); os.makedirs(odir)
+    trace = os.path.join(odir, "trace.ndjson")
+    cmdline = "%s/%s --seed %d %s --out %s" % (bdir, recorder, vlib.SEED, rec_args, trace)
+    r = subprocess.run("timeout 600 " + cmdline, shell=True, capture_output=True, text=True, env=_env())
+    nviol = 0; notes = 0
+    if r.returncode != 0:
+        # the recorder died while driving the library: sanitizer report / signal / watchdog
+        vf = os.path.join(odir, "viol-recorder.txt")
+        open(vf, "w").write("# property=%s\n# recorder died (exit %d) while driving the real library\n%s\n%s\n" % (memprop, r.returncode, cmdline, r.stderr[-3000:]))
+        if memprop == prop:
+            print("VIOLATION property=%s replay=%s" % (memprop, vf)); nviol += 1
+        else:
+            print("NOTE other-property violation property=%s replay=%s (not counted by the %s check)" % (memprop, vf, prop)); notes += 1
+        print("  detail: the recorder died while driving the library: " + (r.stderr.strip().splitlines() or ["?"])[0][:300])
+        return {"stage": name, "kind": "code->spec trace validation", "violations": nviol, "traces_validated": 0, "events": 0,
+                "other_property_notes": notes, "samples": [], "wall_s": round(time.time() - t0, 1), "exhaustive": False}
+    viol, summ, tl = validate_trace(prop, module, cfg, trace, odir)
+    for p, line, what in viol:
+        ln = int(line.split()[1])
+        vf = os.path.join(odir, "viol-%s.ndjson" % p)
+        # replay file: the events up to and including the offending line (from the last init on)
+        with open(trace) as f: L = f.readlines()
+        start = max((i for i in range(ln) if L[i].startswith('{"e":"I"')), default=0)
+        open(vf, "w").writelines(L[start:ln])
+        if p == prop:
+            print("VIOLATION property=%s replay=%s" % (p, vf)); nviol += 1
+        else:
+            print("NOTE other-property violation property=%s replay=%s (not counted by the %s check)" % (p, vf, prop)); notes += 1
+        print("  detail: trace %s: %s" % (line, what))
+    with open(trace) as f:
+        first = [f.readline()[:300] for _ in range(3)]
+    res = {"stage": name, "kind": "code->spec trace validation", "module": module, "recorder": recorder + " " + rec_args,
+           "states": tl["distinct"], "transitions": tl["states"], "events": summ[0], "documents_wellformed": summ[1], "documents_malformed": summ[2],
+           "traces_validated": summ[1] + summ[2], "violations": nviol, "other_property_notes": notes, "samples": first[1:2],
+           "wall_s": round(time.time() - t0, 1), "exhaustive": False}
+    if os.path.getsize(trace) > 5_000_000 and nviol == 0:
+        os.remove(trace)
+    return res
+
+
+def model_stage(prop, name, module, base_cfg, overrides, timeout=1500, heap="12g"):
+    """model-level only (no behaviours to replay): e.g. liveness of the micro-step loop model"""
+    t0 = time.time()
+    odir = os.path.join(OUT, prop, name); shutil.rmtree(odir, ignore_errors=True); os.makedirs(odir)
+    cfg = os.path.join(SPEC, "_%s_%s_%d.cfg" % (prop, name, os.getpid()))
+    vlib.mk_cfg(cfg, os.path.join(SPEC, base_cfg), overrides)
+    meta = tempfile.mkdtemp(prefix="tlc-", dir=odir)
+    r = subprocess.run("cd %s && timeout %d %s" % (SPEC, timeout, vlib.tlc_cmd(module, os.path.basename(cfg), metadir=meta, heap=heap)),
+                       shell=True, capture_output=True, text=True)
+    shutil.rmtree(meta, ignore_errors=True); os.remove(cfg)
+    open(os.path.join(odir, "tlc.log"), "w").write(r.stdout[-100000:])
+    tl = vlib.parse_tlc_log(r.stdout)
+    if tl["violated"]:
+        raise Infra("MODEL-LEVEL VIOLATION in %s (%s): Layer I breaks a property at model level; replay the counterexample in %s/tlc.log on the code "
+                    "to decide between a defect and a model error" % (module, tl["violated"], odir))
+    if not tl["ok"]:
+        raise Infra("TLC did not complete (%s): %s" % (name, tl["error"]))
+    return {"stage": name, "kind": "model-level (TLC only)", "module": module, "constants": overrides, "states": tl["distinct"],
+            "transitions": tl["states"], "depth": tl["depth"], "violations": 0, "samples": [], "wall_s": round(time.time() - t0, 1),
+            "temporal_properties_checked": "Terminates, Progress" if "Micro" in module else ""}
 
 
 ASSUME_COMMON = [
@@ -144,9 +233,11 @@ NAV_STAGES = {
             "thorough": [("values-names", _nav(3, 3, "ValsAll", "NamesRich", "LookAB", "OpsWalk", "RootsOA")),
                          ("values-nest", _nav(3, 3, "ValsAll", "NamesAB", "LookAB", "OpsNav", "RootsOA"))]},
     "C07": {"quick":    [("lookup-structure", _nav(4, 3, "ValsInt1", "NamesAB", "LookAB", "OpsLook", "RootsOA")),
-                         ("lookup-names", _nav(3, 2, "ValsInt1", "NamesRich", "LookRich", "OpsLook", "RootsO"))],
+                         ("lookup-names", _nav(3, 2, "ValsInt1", "NamesRich", "LookRich", "OpsLook", "RootsO")),
+                         ("lookup-long-names", _nav(3, 2, "ValsInt1", "NamesLong", "LookLong", "OpsLook", "RootsO"))],
             "thorough": [("lookup-structure", _nav(5, 3, "ValsInt1", "NamesAB", "LookAB", "OpsLook", "RootsOA")),
                          ("lookup-names", _nav(3, 3, "ValsMix", "NamesRich", "LookRich", "OpsLook", "RootsO")),
+                         ("lookup-long-names", _nav(4, 3, "ValsInt1", "NamesLong", "LookLong", "OpsLook", "RootsO")),
                          ("lookup-raw", _nav(4, 3, "ValsInt1", "NamesAB", "LookAB", "OpsAll", "RootsOA"))]},
     "C10": {"quick":    [("transcribe-structure", _nav(5, 4, "ValsInt1", "NamesAB", "LookAB", "OpsTrans", "RootsOA", 10)),
                          ("transcribe-values", _nav(2, 3, "ValsAll", "NamesRich", "LookAB", "OpsTrans", "RootsOA", 10)),
@@ -159,11 +250,25 @@ NAV_STAGES = {
 }
 
 
+PTRACE = {  # recorded executions of the real parser validated by spec/TraceParser.tla
+    "quick":    {"valid": "--mode valid --docs 500 --big", "mutate": "--mode mutate --docs 600", "hostile": "--mode hostile --docs 600", "mixed": "--mode mixed --docs 600 --big"},
+    "thorough": {"valid": "--mode valid --docs 6000 --big", "mutate": "--mode mutate --docs 8000 --big", "hostile": "--mode hostile --docs 8000 --big", "mixed": "--mode mixed --docs 8000 --big"},
+}
+PTRACE_FLAVOUR = {"C01": "hostile", "C02": "mixed", "C03": "valid", "C06": "valid", "C07": "valid", "C08": "mutate", "C09": "hostile",
+                  "C10": "valid", "C11": "valid", "C12": "mixed", "C16": "hostile"}
+
+
+def parser_trace_stage(prop, tier):
+    fl = PTRACE_FLAVOUR[prop]
+    return trace_stage(prop, "recorded-" + fl, "record_parser", PTRACE[tier][fl], "TraceParser.tla", "TraceParser.cfg")
+
+
 def check_nav(prop, tier, replay):
     if replay:
         return replay_file(prop, replay)
     t0 = time.time()
     stages = [product_stage(prop, name, "MC_Nav.tla", "MC_Nav.cfg", consts) for name, consts in NAV_STAGES[prop][tier]]
+    stages.append(parser_trace_stage(prop, tier))
     return finish(prop, tier, stages, t0, ASSUME_COMMON)
 
 
@@ -185,6 +290,7 @@ def check_stream(prop, tier, replay):
         return replay_file(prop, replay)
     t0 = time.time()
     stages = [product_stage(prop, name, "MC_Stream.tla", "MC_Stream.cfg", c) for name, c in STREAM_STAGES[tier]]
+    stages.append(parser_trace_stage(prop, tier))
     return finish(prop, tier, stages, t0, ASSUME_COMMON)
 
 
@@ -223,6 +329,11 @@ def check_safety(prop, tier, replay):
     stages = [product_stage(prop, name, "MC_Safety.tla", "MC_Safety.cfg", c) for name, c in SAFETY_STAGES[tier]]
     for name, mod, cfg, c in EXTRA_STAGES.get(prop, {}).get(tier, []):
         stages.append(product_stage(prop, name, mod, cfg, c, replayer="replay_writer" if mod == "MC_Writer.tla" else "replay_parser"))
+    stages.append(parser_trace_stage(prop, tier))
+    if prop == "C16":
+        stages.append(model_stage(prop, "loop-liveness", "MC_Micro.tla", "MC_Micro.cfg",
+                                  dict(K=2, MaxD=2, MaxCalls=3, Sigma="SigmaM", Names="NamesM") if tier == "quick" else
+                                  dict(K=3, MaxD=2, MaxCalls=3, Sigma="SigmaM", Names="NamesM")))
     return finish(prop, tier, stages, t0, ASSUME_COMMON)
 
 
@@ -234,11 +345,13 @@ for _p in ("C01", "C09", "C12", "C16"):
 VERIFY_STAGES = {
     "quick":    [("tokens-k2-full", dict(K=2, MaxDs="MaxDs123", Sigma="SigmaFull", Deep="FALSE")),
                  ("tokens-k3-full", dict(K=3, MaxDs="MaxDs2", Sigma="SigmaFull", Deep="FALSE")),
+                 ("names-k4", dict(K=4, MaxDs="MaxDs2", Sigma="SigmaNames", Deep="FALSE")),
                  ("nesting-limits", dict(K=0, MaxDs="MaxDsDeep", Sigma="SigmaMid", Deep="TRUE"))],
     "thorough": [("tokens-k3-full", dict(K=3, MaxDs="MaxDs123", Sigma="SigmaFull", Deep="FALSE")),
                  ("tokens-k4-full", dict(K=4, MaxDs="MaxDs2", Sigma="SigmaFull", Deep="FALSE")),
                  ("tokens-k2-wide", dict(K=2, MaxDs="MaxDs123", Sigma="SigmaWide", Deep="FALSE")),
                  ("tokens-k4-mid", dict(K=4, MaxDs="MaxDs2", Sigma="SigmaMid", Deep="FALSE")),
+                 ("names-k5", dict(K=5, MaxDs="MaxDs2", Sigma="SigmaNames", Deep="FALSE")),
                  ("nesting-limits", dict(K=0, MaxDs="MaxDsDeep", Sigma="SigmaMid", Deep="TRUE"))],
 }
 
@@ -248,6 +361,7 @@ def check_verify(prop, tier, replay):
         return replay_file(prop, replay)
     t0 = time.time()
     stages = [product_stage(prop, name, "MC_Verify.tla", "MC_Verify.cfg", c) for name, c in VERIFY_STAGES[tier]]
+    stages.append(parser_trace_stage(prop, tier))
     return finish(prop, tier, stages, t0, ASSUME_COMMON)
 
 
@@ -275,6 +389,8 @@ def check_writer(prop, tier, replay):
         return replay_file(prop, replay, "replay_writer")
     t0 = time.time()
     stages = [product_stage(prop, name, "MC_Writer.tla", "MC_Writer.cfg", c, replayer="replay_writer") for name, c in WRITER_STAGES[prop][tier]]
+    stages.append(trace_stage(prop, "recorded-long-payloads", "record_writer", "--runs %d" % (400 if tier == "quick" else 6000),
+                              "TraceWriter.tla", "TraceWriter.cfg", memprop="C04"))
     return finish(prop, tier, stages, t0, ASSUME_WRITER)
 
 
@@ -322,6 +438,8 @@ def check_tostring(prop, tier, replay):
     t0 = time.time()
     fmt_table_guard()
     stages = [product_stage(prop, name, "MC_ToString.tla", "MC_ToString.cfg", c, replayer="replay_tostring") for name, c in TOSTRING_STAGES[prop][tier]]
+    stages.append(trace_stage(prop, "recorded-large-documents", "record_tostring", "--big --docs %d" % (150 if tier == "quick" else 3000),
+                              "TraceToString.tla", "TraceToString.cfg", memprop="C13"))
     return finish(prop, tier, stages, t0, ASSUME_TS)
 
 
